@@ -120,6 +120,11 @@ func removeSourcePrecedence(rbacIxns []*rbacIntention, intentionDefaultAction in
 			// [j] is the thing to maybe NOT [i] from
 			if ixnSourceMatches(rbacIxns[i].Source, rbacIxns[j].Source) {
 				rbacIxns[j].NotSources = append(rbacIxns[j].NotSources, rbacIxns[i].Source)
+			} else if ixnSourceMatches(rbacIxns[j].Source, rbacIxns[i].Source) {
+				// The higher precedence [i] covers every source [j] can match (e.g.
+				// "* -> api" above "web -> *"), so [j] can never be the first match:
+				// it is completely shadowed and must not produce a rule of its own.
+				rbacIxns[j].Skip = true
 			}
 		}
 		if rbacIxns[i].Action == intentionDefaultAction {
